@@ -358,10 +358,18 @@ func localWriteC03(ctx context.Context, env *hostileEnv, c CaseC03, o *Outcome, 
 		px.SetGate(false)
 		o.Labels = append(o.Labels, fmt.Sprintf("open-with-read-%d-failing(of %d)", c.OpenFault, reads))
 		if r.err != nil {
-			// the Open is refused: nothing was opened, nothing can be written (an accepted outcome)
+			// the Open is refused: nothing was opened, nothing can be written (an accepted outcome); the caller
+			// tries again on the same instance, now that every block can be read: whatever that Open hands back
+			// is judged like any other store of the non-writer
 			o.Labels = append(o.Labels, "open-refused")
 			o.NonTrivial = reads >= c.OpenFault
-			return o
+			s2, err2 := px.DB.Open(ctx, cl.Addr, cl.OpenOpts(&orbitdb.CreateDBOptions{}))
+			if err2 != nil {
+				o.Labels = append(o.Labels, "retry-refused-too")
+				return o
+			}
+			o.Labels = append(o.Labels, "open-retried-on-the-same-instance")
+			r.s = s2
 		}
 		sx = r.s
 	} else {
